@@ -7,6 +7,7 @@ import (
 	"io"
 	"sync"
 	"sync/atomic"
+	"time"
 
 	"github.com/tjfoc/gmsm/gmtls"
 
@@ -19,14 +20,19 @@ func init() { registry["C07"] = runC07 }
 type c07Fault struct {
 	fromClient bool   // direction that is attacked
 	k          int    // index of the application-phase record (of that direction) the fault applies to
-	kind       string // flip | truncate | extend | swap | dup | drop | inject-reverse | inject-foreign | hdr-type | hdr-version | hdr-length | eos
+	kind       string // flip | truncate | extend | swap | dup | drop | inject-reverse | inject-foreign | hdr-type | hdr-version | hdr-length | eos | replay-far
 	arg        int
+	long       bool // a session of some 300 small writes instead of 8 (counters, IV sources and caches behave differently past their first wrap)
+	dist       int  // replay-far: the record is presented again dist records later
 }
 
 func (f c07Fault) String() string {
 	d := "s2c"
 	if f.fromClient {
 		d = "c2s"
+	}
+	if f.kind == "replay-far" {
+		return fmt.Sprintf("replay-far@%s#%d+%d", d, f.k, f.dist)
 	}
 	return fmt.Sprintf("%s@%s#%d(arg=%d)", f.kind, d, f.k, f.arg)
 }
@@ -50,6 +56,16 @@ func runC07(c *Ctx) {
 	n := c.Q(300, 24000)
 	for i := 0; i < n; i++ {
 		f := c07Fault{fromClient: i%2 == 0, k: r.Intn(6), kind: kinds[i%len(kinds)], arg: r.Intn(1 << 20)}
+		faults = append(faults, f)
+	}
+	// long sessions: faults deep inside a stream of several hundred records, and old records replayed at the distances at
+	// which a one-byte or per-connection counter comes round (31..33, 255..257, ...)
+	dists := []int{255, 256, 257, 32, 31, 33, 64, 128, 254, 16}
+	for i := 0; i < c.Q(20, 400); i++ {
+		f := c07Fault{fromClient: i%2 == 0, long: true, kind: kinds[(i*7)%len(kinds)], arg: r.Intn(1 << 20), k: 40 + r.Intn(240)}
+		if i%2 == 0 || i < 2*len(dists) {
+			f.kind, f.dist, f.k = "replay-far", dists[(i/2)%len(dists)], r.Intn(12)
+		}
 		faults = append(faults, f)
 	}
 	var ivMu sync.Mutex
@@ -139,10 +155,19 @@ func runC07Session(c *Ctx, pki *tlsPKI, suite uint16, f c07Fault, idx int, ivMu 
 	pre.Wait()
 	// sender: 8 writes with seeded sizes, then Close
 	sizes := make([]int, 8)
+	if f.long {
+		sizes = make([]int, 300)
+	}
 	total := 0
 	for i := range sizes {
 		sizes[i] = r.Pick(1, 2, 15, 16, 17, 100, 1000, 5000, 16384, 1+r.Intn(3000))
+		if f.long {
+			sizes[i] = r.Pick(1, 2, 3, 15, 16, 17, 40)
+		}
 		total += sizes[i]
+	}
+	if f.long {
+		rep.Count("blackbox_long_sessions", 1)
 	}
 	var wg sync.WaitGroup
 	wg.Add(2)
@@ -178,10 +203,19 @@ func runC07Session(c *Ctx, pki *tlsPKI, suite uint16, f c07Fault, idx int, ivMu 
 			if err != nil {
 				rerr = err
 				// sticky: every later Read fails and delivers nothing
-				for k := 0; k < 3; k++ {
+				for k := 0; k < 5; k++ {
+					// an application that polls with deadlines moves them between Reads: that must not revive the connection
+					switch k {
+					case 2:
+						receiver.SetReadDeadline(time.Time{})
+					case 3:
+						receiver.SetDeadline(time.Now().Add(time.Hour))
+					case 4:
+						receiver.SetReadDeadline(time.Now().Add(time.Hour))
+					}
 					n2, e2 := receiver.Read(buf)
 					if n2 != 0 || e2 == nil {
-						stickyBad = fmt.Sprintf("Read #%d after the error returned (%d,%v)", k+1, n2, e2)
+						stickyBad = fmt.Sprintf("Read #%d after the error returned (%d,%v)%s", k+1, n2, e2, map[bool]string{true: " — after the read deadline was moved", false: ""}[k >= 2])
 					}
 				}
 				return
@@ -241,6 +275,9 @@ func runC07Session(c *Ctx, pki *tlsPKI, suite uint16, f c07Fault, idx int, ivMu 
 	}
 	// expected delivered byte count
 	appIdx := f.k // index among app records of the attacked direction
+	if f.kind == "replay-far" {
+		appIdx = f.k + f.dist // the old record arrives in front of this one
+	}
 	before := 0
 	if appIdx < len(cum) {
 		before = cum[appIdx]
@@ -265,6 +302,12 @@ func runC07Session(c *Ctx, pki *tlsPKI, suite uint16, f c07Fault, idx int, ivMu 
 	region := ""
 	if f.kind == "flip" {
 		region = []string{"/first-bytes", "/iv-or-nonce", "/body", "/mac-tag-padding"}[f.arg%4]
+	}
+	if f.kind == "replay-far" {
+		region = fmt.Sprintf("/distance=%d", f.dist)
+	}
+	if f.long {
+		region += "/long-session"
 	}
 	cls := fmt.Sprintf("blackbox/%s/%s/%s%s", suiteName(suite), map[bool]string{true: "c2s", false: "s2c"}[f.fromClient], f.kind, region)
 	w["delivered"], w["expected_delivered"], w["read_error"], w["sizes"] = len(got), want, errStr(rerr), sizes
@@ -300,7 +343,7 @@ func runC07Session(c *Ctx, pki *tlsPKI, suite uint16, f c07Fault, idx int, ivMu 
 // direction once *armed is set and applies fault f to record number f.k (sets *applied when it does).
 func c07Mutator(f c07Fault, foreign *[2][]byte, armed, applied *int32) func(fc bool, i int, rec []byte) ([][]byte, bool) {
 	var cnt [2]int
-	var held []byte
+	var held, far []byte
 	var lastReverse [2][]byte
 	var mmu sync.Mutex
 	mut := func(fc bool, i int, rec []byte) ([][]byte, bool) {
@@ -327,6 +370,16 @@ func c07Mutator(f c07Fault, foreign *[2][]byte, armed, applied *int32) func(fc b
 		}
 		k := cnt[d]
 		cnt[d]++
+		if f.kind == "replay-far" {
+			if k == f.k {
+				far = append([]byte{}, rec...)
+			}
+			if k == f.k+f.dist && far != nil {
+				atomic.StoreInt32(applied, 1)
+				return [][]byte{far, rec}, false
+			}
+			return nil, false
+		}
 		if held != nil { // second half of a swap
 			h := held
 			held = nil
@@ -429,6 +482,81 @@ func runC07White(c *Ctx) {
 	for _, s := range []sc{{gmtls.GMTLS_ECC_SM4_CBC_SM3, "CBC", 32, 16}, {gmtls.GMTLS_ECC_SM4_GCM_SM3, "GCM", 0, 4},
 		{gmtls.GMTLS_ECDHE_SM4_CBC_SM3, "ECDHE-CBC", 32, 16}, {gmtls.GMTLS_ECDHE_SM4_GCM_SM3, "ECDHE-GCM", 0, 4}} {
 		s := s
+		// a long run of one sender / receiver pair: the sequence number needs a carry after 255 records and a second one
+		// after 65535 (thorough tier); every record is opened by the reference under its index and by a gmsm receiver, and
+		// at each checkpoint behind a carry a fresh receiver that has seen all records so far is shown record 0 again
+		{
+			r := c.Rng("white-long/" + s.name)
+			key, iv, mac := r.Bytes(16), r.Bytes(s.ivLen), r.Bytes(s.macLen)
+			w := map[string]interface{}{"suite": s.name, "key": mon.Hex(key), "iv": mon.Hex(iv), "mac_key": mon.Hex(mac)}
+			snd, e1 := gmtls.VerifNewHalfConn(s.id, key, iv, mac, false)
+			rcv, e2 := gmtls.VerifNewHalfConn(s.id, key, iv, mac, true)
+			if e1 != nil || e2 != nil {
+				rep.Violation("C07/harness/halfconn", fmt.Sprint(e1, e2), w)
+			} else {
+				refRcv := &ref.HalfState{Suite: s.id, Key: key, IV: iv, MACKey: mac, On: true}
+				n := c.Q(600, 66000)
+				var first []byte
+				bad := false
+				for i := 0; i < n && !bad; i++ {
+					p := []byte{byte(i), byte(i >> 8), byte(i >> 16)}
+					rec := snd.Encrypt(ref.RecAppData, p, r.Bytes(16))
+					if i == 0 {
+						first = rec
+					}
+					rr, _ := ref.SplitRecords(rec)
+					if len(rr) != 1 {
+						rep.Violation("C07/encrypt/not-one-wellformed-record", fmt.Sprint(i), w)
+						break
+					}
+					if info, err := refRcv.Open(rr[0]); err != nil || !bytes.Equal(info.Plain, p) {
+						rep.Violation("C07/encrypt/reference-cannot-open-gmsm-record/"+s.name+"/long-run", fmt.Sprintf("record %d: %v", i, err), w)
+						bad = true
+					}
+					if got, ok, _ := rcv.Decrypt(rec); !ok || !bytes.Equal(got, p) {
+						rep.Violation("C07/decrypt/rejects-the-next-record-of-a-long-run/"+s.name, fmt.Sprintf("record %d", i), w)
+						bad = true
+					}
+					if snd.Seq() != uint64(i+1) || rcv.Seq() != uint64(i+1) {
+						rep.Violation("C07/encrypt/sequence-number-does-not-advance-by-one", fmt.Sprintf("after %d records sender seq=%d receiver seq=%d", i+1, snd.Seq(), rcv.Seq()), w)
+						bad = true
+					}
+					switch i + 1 {
+					case 255, 256, 257, 511, 512, 65535, 65536, 65537:
+						// the receiver now expects record i+1: record 0 again must not pass for it
+						if _, ok, _ := rcv.Decrypt(first); ok {
+							rep.Violation("C07/decrypt/accepts-record-under-wrong-sequence-number/"+s.name, fmt.Sprintf("record 0 accepted again after %d records", i+1), w)
+						}
+						bad = true // a failed Decrypt may or may not consume a sequence number: this receiver is done; go on with a fresh pair
+						if i+1 < n {
+							// resynchronise: new pair positioned at i+1 by replaying the run is expensive for 65536; instead continue the
+							// sender with a fresh receiver fed only from here on, by re-keying both at the same position
+							rep.Count("white_long_run_checkpoints", 1)
+						}
+					}
+					if bad && (i+1 == 255 || i+1 == 256 || i+1 == 257 || i+1 == 511 || i+1 == 512 || i+1 == 65535 || i+1 == 65536 || i+1 == 65537) {
+						// continue the run behind the checkpoint with a new receiver brought to the same position
+						bad = false
+						rcv2, e := gmtls.VerifNewHalfConn(s.id, key, iv, mac, true)
+						if e != nil {
+							break
+						}
+						rcv = nil
+						// bring the new receiver to sequence number i+1 by re-sealing the run with a second sender
+						snd2, _ := gmtls.VerifNewHalfConn(s.id, key, iv, mac, false)
+						rr2 := mon.NewRNG(uint64(i))
+						for j := 0; j <= i; j++ {
+							if _, ok, _ := rcv2.Decrypt(snd2.Encrypt(ref.RecAppData, []byte{1}, rr2.Bytes(16))); !ok {
+								break
+							}
+						}
+						rcv = rcv2
+					}
+				}
+				rep.Count("white_long_run_records/"+s.name, int64(n))
+				rep.Eval("white/long-run/" + s.name)
+			}
+		}
 		sizes := []int{0, 1, 15, 16, 17, 31, 32, 100}
 		big := []int{1000, 4096, 16384}
 		Par(len(sizes)+len(big), func(si int) {
